@@ -49,6 +49,8 @@ CHECKS["C04"] = (MC,
     "validated against the schema of the minor it declares, strictly (nbformat's validate() would silently add missing ids). "
     "A subset goes through nbmerge --out and the file on disk is validated.", MERGE_NOTE, "DESIGN.md §5 C04")
 CHECKS["C05"] = (MC,
+    "TLC model checking of MergeAlgo.tla (TLA+ transcription of nbdime's list differ and list/object merge: the laws hold for every "
+    "triple of the universe; its decisions are compared with nbdime's, drift 0) + "
     "TLC trace validation (MergeTrace.tla: LawHolds, Symmetric with the carve-out SamePositionInsert computed by the spec) of "
     "notebook merges for (b,b,b),(b,X,b),(b,b,X),(b,X,X) and both role orders; exhaustive triples of the TLC-enumerated generic "
     "JSON universe (DiffModel.tla) through decide_merge/apply_decisions",
